@@ -470,3 +470,150 @@ pub fn child_open(dir: &Path) {
         Err(e) => println!("refused:{e}"),
     }
 }
+
+/// C29: a backup whose two copies are interleaved with writer operations at controlled points.
+/// Scenario: prefix ops, then `gaps`: three lists of writer ops executed (by the controller) while the
+/// backup thread is parked before the page-file copy, between the copies, and after the log copy.
+/// The completed backup is restored into a fresh directory, opened and dumped.
+pub fn run_backup(obs: &Arc<Obs>, scenarios: &[J], out: &mut dyn Write, scratch: &Path) -> J {
+    use nervusdb_storage::backup::{BackupManager, BackupStatus};
+    for sc in scenarios {
+        let id = sc["id"].as_str().unwrap_or("s").to_string();
+        let dir = scratch.join("bkdb");
+        let bdir = scratch.join("bkout");
+        let rdir = scratch.join("bkrestore");
+        for d in [&dir, &bdir, &rdir] {
+            let _ = std::fs::remove_dir_all(d);
+            std::fs::create_dir_all(d).unwrap();
+        }
+        let prefix = sc["prefix"].as_array().cloned().unwrap_or_default();
+        let keys: Vec<String> = vec!["p".into(), "q".into()];
+        let Some(engine) = prepare_keep(&dir, &prefix) else { continue };
+        let engine = Arc::new(engine);
+        let mut states = vec![dump_engine(&engine, &keys)];
+        obs.sched_enable(true);
+        let result: Arc<Mutex<Option<Result<String, String>>>> = Arc::new(Mutex::new(None));
+        let (ndb, bd, res2) = (dir.join("g.ndb"), bdir.clone(), result.clone());
+        let hb = named('B', move || {
+            nervusdb_storage::verif_hooks::sched("thread.start");
+            let mgr = BackupManager::new(ndb, bd);
+            let r = (|| -> Result<String, String> {
+                let h = mgr.begin_backup().map_err(|e| e.to_string())?;
+                mgr.execute_backup(&h).map_err(|e| e.to_string())?;
+                match mgr.status(&h).map_err(|e| e.to_string())? {
+                    BackupStatus::Completed(info) => Ok(info.id.to_string()),
+                    BackupStatus::Failed { error } => Err(format!("failed:{error}")),
+                    BackupStatus::InProgress { .. } => Err("in-progress".into()),
+                }
+            })();
+            *res2.lock().unwrap() = Some(r);
+        });
+        let points = ["backup.before_ndb_copy", "backup.between_copies", "backup.after_wal_copy"];
+        let gaps = sc["gaps"].as_array().cloned().unwrap_or_default();
+        let mut steps = Vec::new();
+        let mut engine_opt = Some(engine);
+        for (gi, p) in points.iter().enumerate() {
+            let st = drive_plan_keep(obs, &[('B', p.to_string())], &[('B', &hb)]);
+            steps.extend(st);
+            for op in gaps.get(gi).and_then(|g| g.as_array()).cloned().unwrap_or_default() {
+                let kind = op["op"].as_str().unwrap_or("");
+                if kind == "close-reopen" {
+                    if let Some(e) = engine_opt.take() {
+                        if let Ok(e) = Arc::try_unwrap(e) {
+                            let _ = e.checkpoint_on_close();
+                        }
+                    }
+                    engine_opt = open_engine(&dir).ok().map(Arc::new);
+                } else if let Some(e) = &engine_opt {
+                    let _ = writer_op(e, &op);
+                }
+                if let Some(e) = &engine_opt {
+                    states.push(dump_engine(e, &keys));
+                }
+                steps.push(json!(["main", kind, p, "done"]));
+            }
+        }
+        obs.sched_enable(false);
+        hb.join().ok();
+        let bres = result.lock().unwrap().clone().unwrap_or(Err("no-result".into()));
+        let mut ev = json!({"ev": "backup", "id": id, "steps": steps, "states": states, "n_before_start": 1});
+        match bres {
+            Err(e) => {
+                ev["backup"] = json!(e);
+            }
+            Ok(bid) => {
+                ev["backup"] = json!("ok");
+                let target = rdir.join("g.ndb");
+                let r = BackupManager::restore_from_backup(&bdir, bid.parse().unwrap(), &target);
+                match r {
+                    Err(e) => ev["restore"] = json!(format!("err:{e}")),
+                    Ok(()) => {
+                        ev["restore"] = json!("ok");
+                        match open_engine(&rdir) {
+                            Ok(e2) => {
+                                ev["open"] = json!("ok");
+                                ev["d"] = dump_engine(&e2, &keys);
+                            }
+                            Err(e) => ev["open"] = json!(e),
+                        }
+                    }
+                }
+            }
+        }
+        writeln!(out, "{}", ev).unwrap();
+        drop(engine_opt);
+        for d in [&dir, &bdir, &rdir] {
+            let _ = std::fs::remove_dir_all(d);
+        }
+    }
+    json!({"scenarios": scenarios.len()})
+}
+
+fn prepare_keep(dir: &Path, prefix: &[J]) -> Option<GraphEngine> {
+    let engine = open_engine(dir).ok()?;
+    for op in prefix {
+        let _ = writer_op(&engine, op);
+    }
+    Some(engine)
+}
+
+/// like drive_plan, but leaves the schedule controller enabled afterwards
+fn drive_plan_keep(obs: &Obs, plan: &[(char, String)], handles: &[(char, &JoinHandle<()>)]) -> Vec<J> {
+    let mut steps = Vec::new();
+    for (tok, target) in plan {
+        let Some((_, h)) = handles.iter().find(|(c, _)| c == tok) else { continue };
+        let name = tok.to_string();
+        let fin = || h.is_finished();
+        let mut first = true;
+        let mut last = "-".to_string();
+        let status;
+        loop {
+            let st = obs.wait_parked(&name, 0, &fin);
+            if st != "parked" {
+                status = st.to_string();
+                break;
+            }
+            let at = obs.sched.lock().unwrap().parked.get(&name).copied().unwrap_or("?");
+            last = at.to_string();
+            if at == target && !first {
+                status = "parked".to_string();
+                break;
+            }
+            if at == target && first && last == *target {
+                // already there (a previous entry stopped at this point)
+                status = "parked".to_string();
+                break;
+            }
+            first = false;
+            let before = obs.arrivals(&name);
+            obs.release_one(&name);
+            let st2 = obs.wait_parked(&name, before + 1, &fin);
+            if st2 != "parked" {
+                status = st2.to_string();
+                break;
+            }
+        }
+        steps.push(json!([name, target, last, status]));
+    }
+    steps
+}
